@@ -544,7 +544,62 @@ func checkKeyFetcherPool(c *fw.Ctx) {
 				}
 			}
 		}
+		// a queue filled before anybody receives must have room for everything that is put in: the
+		// capacity is the length of the very collection whose elements are sent
+		short := ""
+		shortUnknown := ""
+		if lateSend == "" {
+			for _, b := range fn.Blocks {
+				for _, ins := range b.Instrs {
+					snd, ok := ins.(*ssa.Send)
+					if !ok {
+						continue
+					}
+					mk, isMk := fw.Unwrap(snd.Chan).(*ssa.MakeChan)
+					if !isMk {
+						continue
+					}
+					// the collection the sent values are taken from
+					var coll ssa.Value
+					if ex, isEx := fw.Unwrap(snd.X).(*ssa.Extract); isEx {
+						if nx, isNx := ex.Tuple.(*ssa.Next); isNx {
+							if rg, isRg := nx.Iter.(*ssa.Range); isRg {
+								coll = rg.X
+							}
+						}
+					}
+					if coll == nil {
+						continue // not a send per element of a collection
+					}
+					size := mk.Size
+					for {
+						if cv, isCv := size.(*ssa.Convert); isCv {
+							size = cv.X
+							continue
+						}
+						break
+					}
+					if call, _ := fw.CallOf(size); call != nil && fw.CalleeName(call) == "builtin.len" {
+						if fw.Sig(call.Common().Args[0]) == fw.Sig(coll) {
+							continue
+						}
+						shortUnknown = "the queue's capacity is the length of another collection than the one whose elements are sent at " + c.P.Pos(snd.Pos())
+						continue
+					}
+					switch size.(type) {
+					case *ssa.Const, *ssa.Phi, *ssa.BinOp:
+						short = "the queue is filled at " + c.P.Pos(snd.Pos()) + " with one job per element of " + fw.Sig(coll) + " before any worker runs, but its capacity is " + fw.Sig(size) + ", not the number of elements: with more elements than that the send blocks for ever (nobody receives yet) and FetchKeys never returns"
+					default:
+						shortUnknown = "the queue's capacity " + fw.Sig(size) + " could not be related to the number of jobs sent at " + c.P.Pos(snd.Pos())
+					}
+				}
+			}
+		}
 		switch {
+		case short != "":
+			c.Fail(rule, construct, c.P.Pos(fn.Pos()), short)
+		case shortUnknown != "":
+			c.Undecided(rule, construct, shortUnknown)
 		case lateSend != "" && early != "":
 			c.Fail(rule, construct, lateSend, "jobs are sent (blocking) at "+lateSend+" after the workers were started, and a worker can return under "+early+" while jobs remain: once every worker has gone the producer blocks on the full queue for ever and FetchKeys never returns")
 		case lateSend != "":
